@@ -918,25 +918,22 @@ package gonum
 
 // Dgels. lwork >= max(1, mn + max(mn, nrhs)) with mn = min(m, n): reference LAPACK and the check of the routine (the doc comment
 // asks for max(m,n) + max(m,n,nrhs)). a is not referenced when mn == 0 or nrhs == 0.
-// FINDING (reproduced): the quick return for mn == 0 || nrhs == 0 comes before the test for a workspace query, so a query does not
-// "write work[0] only": Dgels(blas.NoTrans, 0, 3, 2, nil, 3, b, 2, work, -1) zeroes b[0:6], and with b == nil it panics
-// "lapack: insufficient length of a" (message of the nested Dlaset). valid and the frame of b are narrowed to that (bused).
-// FINDING (reproduced): a non-query call with a short a or b stores work[0] (optimal size) before panic(shortA) / panic(shortB):
-// Dgels(blas.NoTrans, 2, 2, 1, make([]float64, 3), 2, b, 1, work, 100) panics with work[0] changed. Hence no "before-writes".
-// FINDING (reproduced, value, found by reading; not expressible here): for anrm > bignum the matrix is scaled but iascl stays 0
-// (reference: IASCL = 2), so the solution is never scaled back and "if iascl == 2" is dead: a = diag(1e300, 2e300), b = (1e300, 4e300)
-// returns x = (2.004e8, 4.008e8) instead of (1, 2).
+// Three defects found with this block were repaired ("fix:" commits): a workspace query for mn == 0 || nrhs == 0 ran the quick
+// return first and zeroed b (Dgels(blas.NoTrans, 0, 3, 2, nil, 3, b, 2, work, -1)); a non-query call with a short a or b stored
+// work[0] before panic(shortA) / panic(shortB); for anrm > bignum the matrix was scaled but iascl stayed 0, so the solution was
+// never scaled back (a = diag(1e300, 2e300), b = (1e300, 4e300) returned (2.004e8, 4.008e8) instead of (1, 2); a value defect, found
+// by reading, not expressible here). The block below is the documented contract: a query writes work[0] only, panics come before
+// any write.
 //@ func Implementation.Dgels props: C02 C07(safety)
 //@ option tier=thorough
 //@ option delegate-panics
 //@ floats: ieee
 //@ let mn = min(m, n)
-//@ let bused = lwork != -1 || mn == 0
 //@ valid flagT(trans) && m >= 0 && n >= 0 && nrhs >= 0 && lda >= max(1, n) && ldb >= max(1, nrhs) &&
 //@       (lwork >= max(1, mn+max(mn, nrhs)) || lwork == -1) && len(work) >= max(1, lwork) &&
-//@       (lwork == -1 || mn == 0 || nrhs == 0 || ge(a, m, n, lda)) && (!bused || max(m, n) == 0 || nrhs == 0 || ge(b, max(m, n), nrhs, ldb))
-//@ panics iff !valid
-//@ writes work[*] ; a[p*lda+q] for p in 0..m, q in 0..n if lwork != -1 ; b[p*ldb+q] for p in 0..max(m, n), q in 0..nrhs if bused
+//@       (lwork == -1 || mn == 0 || nrhs == 0 || ge(a, m, n, lda)) && (lwork == -1 || max(m, n) == 0 || nrhs == 0 || ge(b, max(m, n), nrhs, ldb))
+//@ panics iff !valid, before-writes
+//@ writes work[k] for k in 0..len(work) if lwork != -1 ; work[0] ; a[p*lda+q] for p in 0..m, q in 0..n if lwork != -1 ; b[p*ldb+q] for p in 0..max(m, n), q in 0..nrhs if lwork != -1
 
 // Dgesvd: block left disabled. With the documented contract below (jobU/jobVT == SVDOverwrite is documented but "not coded": the
 // routine panics, so valid excludes it) the whole body is inside the subset: 1247 obligations, 1237 discharged (21 min, thorough
